@@ -1,6 +1,7 @@
 package props
 
 import (
+	"runtime"
 	"encoding/json"
 	"fmt"
 	"strconv"
@@ -41,11 +42,11 @@ func init() {
 			"the worker is built with -race and the driver reads the race log; distinct_nontrivial = distinct (operation, outcome) pairs observed concurrently",
 		block: 4,
 		assumptions: []string{
-			"default contexts only (EnableValidation writes a global test-bookkeeping map and is a unit-test facility); custom function registration is not raced against compilation",
+			"default contexts only (EnableValidation writes a global test-bookkeeping map and is a unit-test facility); one custom function is registered once before the first round (registration itself is not raced against compilation) and is then called by shared machines like any built-in",
 			"absence of race reports only covers executed paths and the detector's bounded history; rounds are short and many for that reason",
 			"the race detector build (-race) of the worker is part of every run; a report whose accessing frames lie only in the harness makes the run inconclusive",
 		},
-		minEvents: []string{"rounds", "concurrent_operations", "concurrent_runs_of_shared_machines", "concurrent_compiles", "rounds_with_same_machine_overlap", "faulted_concurrent_runs", "rounds_with_oracle_after_the_concurrent_phase", "concurrent_runs_on_never_seen_data"},
+		minEvents: []string{"rounds", "concurrent_operations", "concurrent_runs_of_shared_machines", "concurrent_compiles", "rounds_with_same_machine_overlap", "faulted_concurrent_runs", "rounds_with_oracle_after_the_concurrent_phase", "concurrent_runs_on_never_seen_data", "concurrent_runs_calling_a_custom_function"},
 	}})
 }
 
@@ -68,6 +69,7 @@ var (
 	c06Machines []*c06Machine
 	c06Sources  []string // strings to compile concurrently (valid and invalid)
 	c06Extra    int
+	c06Custom   int // machines over the registered custom function
 )
 
 var c06Tables = []func(string) xp.Answer{
@@ -87,6 +89,26 @@ func c06Setup(seed int64) {
 		if m, err := expr.NewExprMachine(src, c02PfxMap); err == nil {
 			c06Machines = append(c06Machines, &c06Machine{src: src, m: m})
 			c06Extra++
+		}
+	}
+	// a custom (plugin-style) function, registered once before anything runs: a pure function of its
+	// two operands, so every run must see exactly its own operands
+	xpath.RegisterCustomFunctions([]xpath.CustomFunctionInfo{{
+		Name: "verif-join",
+		FnPtr: func(args []xpath.Datum) xpath.Datum {
+			a := args[0].Literal("verif-join")
+			runtime.Gosched()
+			return xpath.NewLiteralDatum(a + "|" + args[1].Literal("verif-join"))
+		},
+		Args:          []xpath.DatumTypeChecker{xpath.TypeIsLiteral, xpath.TypeIsLiteral},
+		RetType:       xpath.TypeIsLiteral,
+		DefaultRetVal: xpath.NewLiteralDatum("verif-join-default"),
+	}})
+	for _, src := range []string{"verif-join(a, b)", "verif-join(../x, concat(a, 'k')) = verif-join(b, 'z')", "string-length(verif-join(/r/s[k = current()/../a]/t, a)) > 3"} {
+		if m, err := expr.NewExprMachineWithCustomFunctions(src, c02PfxMap); err == nil {
+			c06Machines = append(c06Machines, &c06Machine{src: src, m: m})
+			c06Extra++
+			c06Custom++
 		}
 	}
 	for len(c06Machines) < 48+c06Extra {
@@ -298,6 +320,9 @@ func (p *c06) Run(tier string, seed int64, idx int) core.CaseResult {
 				res.Ev("concurrent_compiles", 1)
 			case 1:
 				res.Ev("concurrent_runs_of_shared_machines", 1)
+				if strings.Contains(c06Machines[o.mach].src, "verif-join") {
+					res.Ev("concurrent_runs_calling_a_custom_function", 1)
+				}
 				if o.table == c06NonceTable {
 					res.Ev("concurrent_runs_on_never_seen_data", 1)
 				}
